@@ -98,11 +98,20 @@ def evaluate_inprocess(spec):
                 n0 = len(open(out, "rb").read())
                 sig, detail = f"in-process repetition: output of run '{name}' differs from what a fresh process exports", f"{n0} bytes"
                 break
+        if sig is None:
+            # an earlier run that did not finish: A is processed but its output cannot be written (the directory does not exist); whatever
+            # that run leaves behind must not reach the next one
+            runner.run_inproc(scenario.argv_for(spec, inpath, klpath, os.path.join(wd, "no-such-directory", "x.pcapng")), reset=False)
+            r, d = run(inb, klb, False, "B")
+            if r.exc or r.code:
+                sig, detail = f"in-process repetition: run 'B after a failed run of A' fails ({r.exc_sig or r.code})", (r.exc or "")[-300:]
+            elif d != ref["B"]:
+                sig, detail = "in-process repetition: output of run 'B after a failed run of A' differs from what a fresh process exports", ""
     runner.reset_state()
     for p in (inpath, klpath, inb, klb, out):
         if p and os.path.exists(p):
             os.unlink(p)
-    return _result(spec, b, sig, detail, 7, "inprocess")
+    return _result(spec, b, sig, detail, 9, "inprocess")
 
 
 def _result(spec, b, sig, detail, evals, mode):
@@ -168,7 +177,7 @@ def stages(tier):
 RULE = ("scenarios of 1-3 TLS/QUIC connections (QUIC with several CIDs of different lengths, incl. NEW_CONNECTION_ID CIDs that extend or are a "
         "prefix of a CID in use) are exported (a) by 4 fresh `python -m tlexport.main` processes with PYTHONHASHSEED 0 / 1 / two drawn values, three "
         "working directories and perturbed TZ/LANG/COLUMNS/HOME/LC_ALL, (b) in one process: A, A again, B, A, B with no reset between the runs (B = another capture with another key log of the same "
-        "size, in half of the cases run with other options: -p lists that select a port some servers use, -m, -a, -c), all writing to the same output path, which initially holds a longer stale file; each compared with what a fresh process exports for the same input; oracle: sha256 of the output file identical for the same "
+        "size, in half of the cases run with other options: -p lists that select a port some servers use, -m, -a, -c), all writing to the same output path, which initially holds a longer stale file, then a run of A whose output cannot be written followed by B; each compared with what a fresh process exports for the same input; oracle: sha256 of the output file identical for the same "
         "(capture, secrets, options); some captures store packets in Simple Packet Blocks (no timestamps) or with a coarse if_tsresol.  Non-trivial: >= 2 sessions or >= 3 CIDs; evaluations count "
         "TLExport runs")
 ASSUMPTIONS = ["the capture and key-log files are byte-identical between the runs (same paths)"]
